@@ -300,7 +300,7 @@ def pattern_obs(tier, rnd):
 """
         obs.append(Ob(f"pat.cmd.{L}x{T}", build([("n", "int", _notecmd_pre("n")), R("vel", 0, 129), U16("mo"), U16("ct"), U16("va")], body, setup=SETUP),
                       "a cell holding any NOTECMD member survives save/load inside a project", group="patterns", shape=f"one pattern {L}x{T}, cell {sc} symbolic",
-                      symbolic="note over every NOTECMD member, vel 0..129, module/ctl/val u16", timeout=300))
+                      symbolic="note over every NOTECMD member, vel 0..129, module/ctl/val u16", timeout=450))
     return obs
 
 
